@@ -16,6 +16,10 @@ class Injected(Exception):
     pass
 
 
+class InjectedBase(BaseException):
+    """Like KeyboardInterrupt / SystemExit: not an Exception, so `except Exception` cleanup misses it."""
+
+
 def sigtools_dir():
     import sigtools
     return os.path.dirname(os.path.abspath(sigtools.__file__)) + os.sep
@@ -115,6 +119,12 @@ def snapshot(roots):
             d = dict(vars(o))
         except TypeError:
             d = None
+        src = getattr(o, 'sources', None) if type(o).__name__ == 'UpgradedSignature' else None
+        if isinstance(src, dict):
+            # signature objects stored on the inspected callables: their provenance map is part of them
+            out[path + '#sources'] = tuple(sorted(
+                (str(k), id(v), tuple(id(x) for x in v) if isinstance(v, list) else tuple(sorted((id(a), b) for a, b in v.items())))
+                for k, v in src.items())) + (('#id', id(src), ()),)
         if d is not None:
             out[path] = tuple(sorted((k, id(v)) for k, v in d.items()))
             for k in ('__wrapped__', '__signature__', 'func', '_sigtools__forger'):
@@ -136,8 +146,8 @@ def diff_snapshots(a, b):
     out = []
     for k in sorted(set(a) | set(b)):
         if a.get(k) != b.get(k):
-            an = dict(a.get(k, ()))
-            bn = dict(b.get(k, ()))
+            an = dict((x[0], x[1:]) for x in a.get(k, ()))
+            bn = dict((x[0], x[1:]) for x in b.get(k, ()))
             lost = sorted(set(an) - set(bn))
             gained = sorted(set(bn) - set(an))
             changed = sorted(x for x in set(an) & set(bn) if an[x] != bn[x])
